@@ -32,6 +32,11 @@ type lcEnv struct {
 	uct      time.Duration // userConnTimeout
 }
 
+type httpSeen struct {
+	Proxy string
+	Head  string
+}
+
 type startRec struct {
 	Proxy   string
 	Src     string
@@ -55,6 +60,7 @@ type lcClient struct {
 	offClosed map[net.Conn]bool
 	ReqSeen  []time.Duration
 	natSids  int
+	HTTPSeen []httpSeen // requests the http responder of this client saw
 	SilentUnknown bool // work connections for proxies this client did not record are drained silently
 	WorkFrames []RecvMsg // first frame received on each work connection
 }
@@ -200,11 +206,13 @@ func (c *lcClient) runWork(conn net.Conn) {
 		for {
 			// minimal HTTP/1.1 responder: read headers, answer with identity
 			var reqLine string
+			var head strings.Builder
 			for {
 				line, err := br.ReadString('\n')
 				if err != nil {
 					return
 				}
+				head.WriteString(line)
 				if reqLine == "" {
 					reqLine = strings.TrimSpace(line)
 				}
@@ -212,6 +220,9 @@ func (c *lcClient) runWork(conn net.Conn) {
 					break
 				}
 			}
+			c.smu.Lock()
+			c.HTTPSeen = append(c.HTTPSeen, httpSeen{name, head.String()})
+			c.smu.Unlock()
 			body := "served-by " + id + " " + reqLine + "\n"
 			fmt.Fprintf(conn, "HTTP/1.1 200 OK\r\nContent-Type: text/plain\r\nX-Served-By: %s\r\nContent-Length: %d\r\n\r\n%s", id, len(body), body)
 		}
